@@ -4,6 +4,7 @@ package main
 
 import (
 	"fmt"
+	"go/constant"
 	"go/token"
 	"go/types"
 	"sort"
@@ -660,6 +661,17 @@ func valueDesc(v ssa.Value) string {
 	case *ssa.Extract:
 		return valueDesc(x.Tuple) + fmt.Sprintf("#%d", x.Index)
 	case *ssa.Const:
+		if n, ok := x.Type().(*types.Named); ok && n.Obj().Name() == "TokenType" && x.Value != nil {
+			if name, ok := tokenConstNames[x.Int64()]; ok {
+				return name
+			}
+		}
+		if x.Value != nil && x.Value.Kind() == constant.String {
+			return x.Value.ExactString()
+		}
+		if x.Value != nil {
+			return x.Value.String()
+		}
 		return x.String()
 	case *ssa.Global:
 		return x.Name()
@@ -702,3 +714,6 @@ func valueDesc(v ssa.Value) string {
 	}
 	return strings.TrimLeft(v.Name(), "t0123456789") + "val"
 }
+
+// tokenConstNames: TokenType value -> constant name, filled when a model is loaded (used for stable keys).
+var tokenConstNames = map[int64]string{}
